@@ -46,7 +46,7 @@ def run(ctx):
             cases = [nc.Case(**rp["case"])] + cases[:5]
     rc, runs, err = nc.run_cases(ctx, cases)
     if rc != 0:
-        ctx.violation("harness-crash", "notify harness ended with status %s: %s" % (rc, err[-800:]), dict(stderr=err[-3000:]))
+        nc.crash_violation(ctx, cases, runs, rc, err)
     dist = {"type": {}, "paymode": {}, "size": {}, "above_threshold": 0, "multi_call": 0, "P": {}}
     nshown = 0
     for c, r in zip(cases, runs):
